@@ -235,9 +235,9 @@ def run(tier: str, seed: int) -> Report:
                                    workers=2, parse_prints=False),
         "MC_VEcu_oneoff": pool.submit(tlc.run_tlc, "MC_VEcu", "MC_VEcu_oneoff.cfg", timeout=1500,
                                       workers=4, parse_prints=False),
-        "MC_VEcu_devS20": pool.submit(tlc.run_tlc, "MC_VEcu", "MC_VEcu_devS20.cfg", timeout=900, workers=2,
+        "MC_VEcu_devS20": pool.submit(tlc.run_tlc, "MC_VEcu", "MC_VEcu_devS20.cfg", timeout=900, workers=1,
                                       parse_prints=False),
-        "MC_VEcu_devS20b": pool.submit(tlc.run_tlc, "MC_VEcu", "MC_VEcu_devS20b.cfg", timeout=900, workers=2,
+        "MC_VEcu_devS20b": pool.submit(tlc.run_tlc, "MC_VEcu", "MC_VEcu_devS20b.cfg", timeout=900, workers=1,
                                        parse_prints=False),
     }
     allcfg = "MC_VEcu_allq" if quick else "MC_VEcu_all"
